@@ -9,7 +9,9 @@
 //! (v1 or v2, and transcribed into the other version); the receiver must read the quotation
 //! exactly as the sender does — right away and after edits at the edges of the source, which is
 //! where a boundary that was written down wrongly (relative instead of unbounded, wrong side)
-//! starts to show.
+//! starts to show.  The second receiver never collects garbage (the first one and the sender do):
+//! what a quotation or link reads must not depend on that either — C15 runs the same part under
+//! its own name.
 
 use crate::dump::{dump_doc, dump_weak, first_diff, Node, Roots};
 use crate::engine::*;
@@ -134,9 +136,13 @@ enum Src {
 }
 
 fn make_doc(client: u64, utf16: bool) -> Doc {
+    make_doc_gc(client, utf16, false)
+}
+
+fn make_doc_gc(client: u64, utf16: bool, skip_gc: bool) -> Doc {
     let mut o = Options::with_client_id(ClientID::new(client));
     o.offset_kind = if utf16 { OffsetKind::Utf16 } else { OffsetKind::Bytes };
-    o.skip_gc = false;
+    o.skip_gc = skip_gc;
     Doc::with_options(o)
 }
 
@@ -320,7 +326,7 @@ impl Prop for Links {
         let cross = if case.v2 { decoded.encode_v1() } else { decoded.encode_v2() };
         let b_doc = make_doc(77, case.utf16);
         let b = Roots::declare(&b_doc);
-        let c_doc = make_doc(78, case.utf16);
+        let c_doc = make_doc_gc(78, case.utf16, true);
         let c = Roots::declare(&c_doc);
         let apply = |doc: &Doc, bytes: &[u8], v2: bool, what: &str| -> Result<(), Fail> {
             let u = match if v2 { Update::decode_v2(bytes) } else { Update::decode_v1(bytes) } {
